@@ -15,6 +15,7 @@ import (
 	_ "cuelang.org/go/internal/verif/h/c11"
 	_ "cuelang.org/go/internal/verif/h/c12"
 	_ "cuelang.org/go/internal/verif/h/c20"
+	_ "cuelang.org/go/internal/verif/h/c13"
 	_ "cuelang.org/go/internal/verif/h/c09"
 )
 
